@@ -46,6 +46,26 @@ def preceding_assign(fn, var, before):
     return best
 
 
+def expand_locals(fn, e, before, depth=4):
+    """e with plain temporaries replaced by their reaching definitions (`first_new = old*stride` used as a slice bound), stride look-ups kept as names"""
+    import copy
+
+    class Sub(ast.NodeTransformer):
+        def visit_Name(self, n):
+            if not isinstance(n.ctx, ast.Load) or depth <= 0 or stride_key(fn, n.id, before) is not None:
+                return n
+            a = preceding_assign(fn, n.id, before)
+            if a is None or not isinstance(a.value, (ast.BinOp, ast.Name)) or any(isinstance(x, ast.Name) and x.id == n.id for x in ast.walk(a.value)):
+                return n
+            # only a single definition in the function: otherwise which one reaches is a path question
+            defs = [x for x in ast.walk(fn) if isinstance(x, (ast.Assign, ast.AnnAssign, ast.AugAssign)) and
+                    any(isinstance(t, ast.Name) and t.id == n.id for t in (x.targets if isinstance(x, ast.Assign) else [x.target]))]
+            if len(defs) != 1:
+                return n
+            return expand_locals(fn, a.value, a, depth - 1)
+    return Sub().visit(copy.deepcopy(e))
+
+
 def stride_key(fn, var, before):
     """key K and owner O if var's reaching definition is `O.stride.get(K, 1)`"""
     a = preceding_assign(fn, var, before)
@@ -228,7 +248,7 @@ def rule_stride(chk, cls):
                     chk.violated('stride-discipline', '%s:%s#%d' % (name, c.func.attr, idx), node=c, file=PA, func=name,
                                  detail='sized operation %s lacks its stride argument' % U(c))
                     continue
-                arg = c.args[idx]
+                arg = expand_locals(fn, c.args[idx], c)
                 n += 1
                 cands = [v for v in names_in(arg) if stride_key(fn, v, c) is not None]
                 if isinstance(arg, ast.Constant):
@@ -259,6 +279,7 @@ def rule_stride(chk, cls):
                     if bound is None or isinstance(bound, ast.Constant):
                         continue
                     n += 1
+                    bound = expand_locals(fn, bound, s)
                     cands = [v for v in names_in(bound) if stride_key(fn, v, s) is not None]
                     good = [v for v in cands if stride_key(fn, v, s)[0] == key or names_equiv(fn, stride_key(fn, v, s)[0], key)]
                     inst = '%s:slice[%s]' % (name, key)
@@ -403,6 +424,17 @@ def rule_align(chk, cls):
     chk.decide(ok, 'align-after-count-change', 'align_particles:num_real_particles', node=fn, file=PA,
                func='align_particles', detail_bad='num_real_particles is not recomputed on every CPU path',
                detail_ok='recomputed on every CPU path')
+    # who may write the count: only the places that count the Local tags (or define the state from scratch).  Anything else that assigns it asserts an alignment
+    # it has not established (an array whose default tag is not Local, tags changed through a view ...)
+    OWNERS = {'__init__': 'a new, empty array', '__setstate__': 'counted from the pickled tags', 'set_num_real_particles': 'the explicit setter (parallel manager)',
+              'align_particles': 'counts the Local tags', 'add_property': 'first particles of an empty array: counted from the given tags'}
+    wr = sorted(set(name for name, f_ in meths.items() for a in ast.walk(f_) if isinstance(a, (ast.Assign, ast.AugAssign))
+                    and any(U(t) == 'self.num_real_particles' for t in (a.targets if isinstance(a, ast.Assign) else [a.target]))))
+    extra = [w for w in wr if w not in OWNERS]
+    chk.decide(not extra, 'align-after-count-change', 'real-count-written-only-where-tags-are-counted', node=meths[extra[0]] if extra else fn, file=PA, func=extra[0] if extra else 'ParticleArray',
+               detail_bad='%s assigns self.num_real_particles itself instead of calling align_particles(): the count is right only if every particle counted is tagged Local and sits in '
+                          'front - which that method has not established (default tag other than Local, tags changed through the numpy view)' % ', '.join(extra),
+               detail_ok='written in %s' % ', '.join(wr))
     # (that the count is the number of Local tags is decided per path of the fill loop by the shared alignment rule below)
     # one index array for all properties
     cs = [c for c in M.calls(fn) if isinstance(c.func, ast.Attribute) and c.func.attr == 'c_align_array']
@@ -718,6 +750,49 @@ def rule_append_offsets(chk, cls):
                detail_ok='constants added with setdefault / only when missing')
 
 
+def rule_ensure_model(chk):
+    """ParticleArray.ensure_properties interpreted (E8, lowered Cython) on two model arrays: a property the destination lacks is created with the SOURCE's type, default and
+    stride; properties it has are left alone; with a list only those are looked at"""
+    from verif_static import emit as EM, absint as AI
+    t = M.cy(PA)
+    fn = M.find_method(t, 'ParticleArray', 'ensure_properties')
+    bad, und, nrun = None, None, 0
+    for props in (None, ['B'], ['A', 'x'], []):
+        it = EM.interpreter()
+        EM.model_module(it, '<pa>', t)
+        calls = []
+
+        def addp(i, a, k, n, e):
+            kw = dict(k)
+            for nm_, v_ in zip(('name', 'type', 'default', 'data', 'stride'), a):
+                kw[nm_] = v_
+            calls.append(kw)
+            return None
+
+        def carr(ty):
+            return EM.mock(get_c_type=lambda i, a, k, n, e: ty)
+        dst = EM.instance(it, '<pa>', 'ParticleArray', properties={'x': carr('double'), 'tag': carr('int')}, stride={'x': 1, 'Q': 9}, default_values={'x': 0.0, 'tag': 0, 'A': -1, 'B': -1.0},
+                          add_property=addp, name='dst')
+        src = EM.mock(name='src', properties={'x': carr('double'), 'A': carr('int'), 'tag': carr('int'), 'B': carr('float')}, stride={'A': 3}, default_values={'x': 1.0, 'A': 7, 'tag': 0, 'B': 0.5})
+        try:
+            EM.call(it, dst, 'ensure_properties', src, props)
+        except (AI.Unsupported, AI.Raised) as e:
+            und = 'props=%s: %s' % (props, e)
+            break
+        nrun += 1
+        full = {'A': {'name': 'A', 'type': 'int', 'default': 7, 'stride': 3}, 'B': {'name': 'B', 'type': 'float', 'default': 0.5, 'stride': 1}}
+        want = [full[k_] for k_ in (['A', 'B'] if not props else [p_ for p_ in props if p_ in full])]
+        got = sorted(({'name': c_.get('name'), 'type': c_.get('type'), 'default': c_.get('default'), 'stride': c_.get('stride', 1)} for c_ in calls), key=lambda d_: str(d_['name']))
+        if got != want and bad is None:
+            bad = (props, got, want)
+    if und:
+        chk.undecided('whole-property-coverage', 'ensure_properties:model-run', node=fn, file=PA, func='ensure_properties', detail='not interpretable on the model: ' + und)
+    else:
+        chk.decide(bad is None, 'whole-property-coverage', 'ensure_properties:model-run', node=fn, file=PA, func='ensure_properties',
+                   detail_bad='with a source holding A (int, default 7, stride 3) and B (float, default 0.5) and props=%s the destination gets add_property%s, expected %s: the new '
+                              'property must take type, default and stride from the source' % (bad or ('', '', '')), detail_ok='%d selections: type, default and stride taken from the source' % nrun)
+
+
 def main(chk):
     chk.explanation = ('Structural coherence rules over every method of ParticleArray (Cython parse tree lowered to ast): '
                        'per-property maps kept in step on delete/rebind/insert, every sized operation scaled by the stride '
@@ -738,6 +813,7 @@ def main(chk):
     rule_sorted_removal(chk, cls)
     rule_count(chk, cls)
     rule_append_offsets(chk, cls)
+    rule_ensure_model(chk)
     # align_particles keeps its index array a permutation (rule shared with C16, which relies on it after removals)
     import importlib.util
     spec = importlib.util.spec_from_file_location('c16mod', os.path.join(os.path.dirname(os.path.abspath(__file__)), 'c16.py'))
